@@ -14,7 +14,9 @@ GAP_CLASS = {
     'ls': 'LSPS', 'ps': 'LSPS',
     'cmtlf': 'CMT[LT]', 'cmt3': 'CMT[LT]', 'cmt2lf': 'CMT[LT]',
     'cmtlsps': 'CMT[LSPS]', 'cmtcr': 'CMT[LT]',
-    'line': 'LINECMT', 'vtline': 'LINECMT',
+    'line': 'LINECMT', 'vtline': 'LINECMT', 'linecr': 'LINECMT',
+    'linecrlf': 'LINECMT', 'linels': 'LINECMT[LSPS]',
+    'lineps': 'LINECMT[LSPS]',
     'lfcmt': 'LT+CMT', 'cmt_lf': 'CMT+LT', 'ffcmt': 'CMT+LT',
     'sp': 'SP', 'tab': 'SP', 'nbsp': 'SP', '2sp': 'SP', 'cmt': 'CMT',
     'none': 'NONE',
